@@ -65,6 +65,7 @@ FIXED = [
     ("Array, typed array and ArrayBuffer constructors", "C04", "new Array(NaN), new Uint8Array(Infinity), String.fromCharCode(-1), console.log('\\ud800') raised host errors; new ArrayBuffer(2**32) allocated 4 GiB"),
     ("integer literals beyond the double range", "C04", "'\"\\u{FFFFFFFFFFFFFFFFFFFFFFFF}\"' and a 400-digit integer literal raised OverflowError; '1' + '+1' * 3000 raised RecursionError"),
     ("SyntaxErrors found by the compiler carry", "C04", "a stray break / 300 locals raised JSSyntaxError with line 0; '[' * 400 + ']' * 400 raised RecursionError while converting the result"),
+    ("arrays returned by built-ins inherit", "C12", "Array.prototype.px = 1; [1].concat([2]).px was undefined (arrays made by concat/map/Object.keys had no prototype link)"),
     ("only canonical index strings", "C03", "[10, 20]['\\n0'] and 'abc'['0\\t'] resolved like index 0"),
     ("error objects carry null", "C03", "new Error('m').lineNumber held Python None before the error was thrown"),
 ]
